@@ -491,3 +491,109 @@ func genPExhaustive(idx int, id string, cnt counters, emit func(line, out string
 	emit("E", "E")
 	return e
 }
+
+// genPBig generates a script with a LARGE buffer (around the 32 KiB chunk size of ReadFrom,
+// the 64 KiB switch of the ShrinkSize default, the 1 KiB minimum allocation of grow and the
+// 128 KiB default block size). Only operations that are cheap in the list-based model are
+// used: the suffix-array parsers' Parse(nil) just advances the window head, so the buffer
+// bookkeeping (Write, chunked ReadFrom, Shrink, Reset, ReadAt/ByteAt) can be driven through
+// several fills without parsing. Payloads are generated (`@seed:n`), not spelled out.
+func genPBig(r *rng, id string, cnt counters, emit func(line, out string)) *pExec {
+	kind := r.pickS("GSAP", "GSAP", "OSAP")
+	c := pcfg{kind: kind, f: map[string]int{}}
+	edges := []int{1017, 1024, 1031, 32761, 32768, 32775, 65529, 65536, 65543}
+	bs := edges[r.intn(len(edges))] + r.rangeIn(-3, 3)
+	if r.chance(30) {
+		bs = r.pick(2000, 33000, 40000, 66000, 70000, 100000, 140000) + r.intn(50)
+	}
+	c.f["BufferSize"] = bs
+	switch r.intn(4) {
+	case 0:
+		c.f["ShrinkSize"] = 0 // default: BufferSize/2 below 64 KiB, 32 KiB above
+	case 1:
+		c.f["ShrinkSize"] = bs - 1
+	default:
+		c.f["ShrinkSize"] = r.rangeIn(0, bs-1)
+	}
+	c.f["WindowSize"] = r.pick(0, bs, bs/2, 1000, bs+100)
+	c.f["BlockSize"] = r.pick(0, 1000, 32768, 40000, bs, bs+1, 200000) // 0: default 128 KiB
+	if kind == "OSAP" {
+		c.cost = ""
+	}
+	e, st := newPExec(c, cnt)
+	emit(e.header(id), fmt.Sprintf("S %s %s", id, st))
+	e.lines = append(e.lines, e.header(id))
+	cnt.inc("p.script." + kind)
+	if st != "ok" {
+		emit("E", "E")
+		return e
+	}
+	do := func(line string) string {
+		out := e.step(line)
+		emit(line, out)
+		return out
+	}
+	seed := 0
+	pay := func(n int) string {
+		if n <= 0 {
+			return "-"
+		}
+		seed++
+		return fmt.Sprintf("@%d:%d", seed*37+r.intn(30), n)
+	}
+	size := func() int {
+		free := bs - (len(e.fed) - e.off)
+		return r.pick(1, r.rangeIn(1, 9), 1017, 1018, 1024, 1025, 32761, 32767, 32768, 32769, 32775, free-1, free, free+1, free+8,
+			bs, bs+1, r.rangeIn(1, bs+10), r.rangeIn(1, 70000))
+	}
+	nops := r.rangeIn(5, 16)
+	for k := 0; k < nops && !e.dead; k++ {
+		switch x := r.intn(100); {
+		case x < 22:
+			do("write " + pay(size()))
+		case x < 50:
+			n := size()
+			var rs []resp
+			left := n
+			for left > 0 && len(rs) < 12 {
+				mx := r.pick(1, 7, 1000, 32767, 32768, 32769, 50000, 1<<20, left)
+				ec := 0
+				if r.chance(10) {
+					ec = r.pick(1, 2, 3)
+				}
+				rs = append(rs, resp{mx, ec})
+				left -= mx
+			}
+			if r.chance(40) {
+				rs = append(rs, resp{1 << 20, 1})
+			}
+			do(fmt.Sprintf("readfrom %s %s", pay(n), showResps(rs)))
+		case x < 70:
+			do("parsenil")
+			for r.chance(50) && !e.dead && e.unparsed() > 0 {
+				do("parsenil")
+			}
+		case x < 80:
+			do("shrink")
+		case x < 86:
+			if r.chance(30) {
+				do("reset - 0")
+			} else {
+				do(fmt.Sprintf("reset %s %d", pay(r.pick(size(), 1017, 1018, 1024, 32768)), r.pick(0, 3, 6, 7, 8, 64, 40000)))
+			}
+		case x < 98:
+			lo, hi := e.off, len(e.fed)
+			off := r.pick(lo-1, lo, hi-1, hi, hi+1, r.rangeIn(lo, max(lo, hi)), lo+32768, lo+65536)
+			if r.chance(50) {
+				do(fmt.Sprintf("byteat %d", off))
+			} else {
+				do(fmt.Sprintf("readat %d %d", r.pick(0, 1, 8, 64), off))
+			}
+		default:
+			do("cfg")
+		}
+	}
+	cnt.inc("p.bigbuf")
+	emit("E", "E")
+	return e
+}
